@@ -12,6 +12,8 @@
        ph      which phase draw (_phi_l/_psi_l) the machine uses; draws are numbered globally 1, 2, ..
        phWant  GHOST: the draw the property demands (fixed phases: changes only when the shape is set)
        sh      configured shape as a tuple (<<>> is shape None, <<3>> is shape 3 or (3,))
+       buf     identity of the ARRAY that holds `out` (arrays handed out are numbered 1, 2, .. = nbuf: exactly
+               the arrays a caller may still hold; in the intended design every block is a new array)
        off     the machine's time is no longer a whole number of sampling intervals (see
                Dev.ArangeStepRounded); FALSE in the intended design
        out     the block get_samples() returns: [first, n, ph, sh, tdim, ongrid]  = sample indexes
@@ -53,8 +55,8 @@ CONSTANTS Kind,        \* "jakes" | "rayleigh"
           FdQ,         \* Doppler of the lattice instance in quarter turns per sample (0, 1, 2)
           Dev          \* [name |-> BOOLEAN]
 
-VARIABLES gens, draws, len, ret
-vars == <<gens, draws, len, ret>>
+VARIABLES gens, draws, nbuf, len, ret
+vars == <<gens, draws, nbuf, len, ret>>
 
 Ray   == Kind = "rayleigh"
 NoRet == [op |-> "none"]
@@ -92,6 +94,7 @@ BlockShape(b) == IF b.tdim THEN b.sh \o <<b.n>> ELSE b.sh
 
 Init == /\ gens = <<>>
         /\ draws = 0
+        /\ nbuf = 0
         /\ len = 0
         /\ ret = NoRet
 
@@ -99,7 +102,7 @@ Init == /\ gens = <<>>
 NewGen(sh, d, dAsIs, w) ==
   [cur    |-> IF Ray THEN LZero ELSE <<w, 1>>,
    served |-> IF Ray THEN LZero ELSE <<w, 1>>,
-   ph |-> dAsIs, phWant |-> d, sh |-> sh, off |-> FALSE,
+   ph |-> dAsIs, phWant |-> d, sh |-> sh, off |-> FALSE, buf |-> nbuf + 1,
    out |-> Block(LZero, 1, dAsIs, sh, ~Ray)]
 
 \* JakesSampleGenerator(Fd, Ts, L, shape, RS) followed by w skips of 10^7 samples (a generator that
@@ -108,8 +111,9 @@ Construct(sh, w) ==
   /\ gens = <<>>
   /\ gens' = <<NewGen(sh, 1, 1, w)>>
   /\ draws' = 1
+  /\ nbuf' = 1
   /\ len' = 0
-  /\ ret' = [op |-> "Construct", g |-> 1, sh |-> sh, warm |-> IF Ray THEN 0 ELSE w,
+  /\ ret' = [op |-> "Construct", g |-> 1, sh |-> sh, warm |-> IF Ray THEN 0 ELSE w, buf |-> 1,
              exp |-> Block(LZero, 1, 1, sh, ~Ray),
              tab |-> IF Lattice THEN DrawTable(1, sh) ELSE <<>>,
              vals |-> IF Lattice THEN PeriodTable(1, sh) ELSE <<>>, r0 |-> 0]
@@ -138,15 +142,21 @@ GenStep(g, n, op, tdim) ==
            expb   == Block(G.served, n, phE, G.sh, tdim)
            raised == cnt # n               \* the reshape to (.., n) raises, after the time was advanced
            adv    == IF Dev.PlusTsDropped THEN cnt - 1 ELSE cnt
+           \* the array the samples are written to: a new one - or (deviation) the generator's output
+           \* buffer of the previous request when size and shape did not change
+           reuse  == Dev.ReusesBuffer /\ ~Ray /\ G.out.n = cnt /\ G.out.sh = G.sh /\ G.out.tdim = tdim
+           wbuf   == IF raised THEN 0 ELSE IF reuse THEN G.buf ELSE nbuf + 1
        IN /\ gens' = [gens EXCEPT ![g] =
                         [@ EXCEPT !.cur    = IF Ray THEN @ ELSE LAddSmall(@, adv),
                                   !.served = IF Ray THEN @ ELSE LAddSmall(@, n),
                                   !.ph     = ph1,
                                   !.phWant = phE,
                                   !.off    = off1,
+                                  !.buf    = IF raised THEN @ ELSE wbuf,
                                   !.out    = IF raised THEN @ ELSE blk]]
           /\ draws' = IF redraw THEN draws + 1 ELSE draws
-          /\ ret' = [op |-> op, g |-> g, n |-> n, raised |-> raised, asis |-> blk, exp |-> expb,
+          /\ nbuf' = IF wbuf = nbuf + 1 THEN nbuf + 1 ELSE nbuf
+          /\ ret' = [op |-> op, g |-> g, n |-> n, raised |-> raised, asis |-> blk, exp |-> expb, buf |-> wbuf,
                      vals |-> IF Lattice THEN PeriodTable(expb.ph, expb.sh) ELSE <<>>,
                      r0 |-> LMod(expb.first, 4)]
   /\ len' = len + 1
@@ -162,7 +172,7 @@ Skip(g, n) ==
                 [@ EXCEPT !.cur    = IF Ray THEN @ ELSE LAddSmall(@, IF Dev.SkipOffByOne THEN n + 1 ELSE n),
                           !.served = IF Ray THEN @ ELSE LAddSmall(@, n)]]
   /\ ret' = [op |-> "Skip", g |-> g, n |-> n]
-  /\ UNCHANGED draws
+  /\ UNCHANGED <<draws, nbuf>>
   /\ len' = len + 1
 
 \* r successive calls skip_samples_for_next_generation(10^7)
@@ -173,7 +183,7 @@ SkipBig(g, r) ==
                 [@ EXCEPT !.cur    = IF Ray THEN @ ELSE LAddBig(@, r),
                           !.served = IF Ray THEN @ ELSE LAddBig(@, r)]]
   /\ ret' = [op |-> "SkipBig", g |-> g, r |-> r]
-  /\ UNCHANGED draws
+  /\ UNCHANGED <<draws, nbuf>>
   /\ len' = len + 1
 
 \* the shape setter: Jakes phases are redrawn for the new dimensions (also when the shape is the
@@ -188,6 +198,7 @@ SetShape(g, s) ==
                                !.phWant = IF Ray THEN @ ELSE d,
                                !.cur = IF Dev.ShapeRestartsTime /\ ~Ray THEN LZero ELSE @]]
        /\ draws' = d
+       /\ UNCHANGED nbuf
        /\ ret' = [op |-> "SetShape", g |-> g, sh |-> s, draw |-> d,
                   tab |-> IF Lattice /\ ~Ray THEN DrawTable(d, s) ELSE <<>>]
   /\ len' = len + 1
@@ -202,7 +213,8 @@ Similar(g) ==
          G    == NewGen(gens[g].sh, d, dUse, 0)
      IN /\ gens' = Append(gens, G)
         /\ draws' = d
-        /\ ret' = [op |-> "Similar", g |-> g, new |-> NG + 1, exp |-> Block(LZero, 1, d, gens[g].sh, ~Ray),
+        /\ nbuf' = nbuf + 1
+        /\ ret' = [op |-> "Similar", g |-> g, new |-> NG + 1, buf |-> nbuf + 1, exp |-> Block(LZero, 1, d, gens[g].sh, ~Ray),
                    tab |-> IF Lattice /\ ~Ray THEN DrawTable(d, gens[g].sh) ELSE <<>>,
                    vals |-> IF Lattice THEN PeriodTable(d, gens[g].sh) ELSE <<>>, r0 |-> 0]
   /\ len' = len + 1
@@ -228,6 +240,8 @@ IsBlock(b) == /\ IsLimb(b.first)
               /\ b.tdim \in BOOLEAN
               /\ b.ongrid \in BOOLEAN
 TypeOK == /\ draws \in Nat
+          /\ nbuf \in Nat
+          /\ \A g \in 1..NG : gens[g].buf \in 1..nbuf
           /\ len \in 0..MaxLen
           /\ NG <= MaxGens
           /\ \A g \in 1..NG : /\ IsLimb(gens[g].cur)
@@ -275,6 +289,30 @@ Independent == \A g, h \in 1..NG : g # h => /\ gens[g].ph # gens[h].ph
 IsolStep == \A h \in 1..NG : (ret'.op # "Construct" /\ h # ret'.g) => gens'[h] = gens[h]
 Isolation == [][IsolStep]_vars
 
+\* A block handed out is a VALUE, not a window into the generator: the arrays 1..nbuf are exactly those
+\* callers may still hold, so a step that produces samples must write them to a NEW array (nbuf + 1) and a
+\* step that produces none must write to no array at all.  (Call discipline: results stay results.)
+BlockOps == GenOps \cup {"Construct", "Similar"}
+EarlierStep ==
+  /\ (ret'.op \in BlockOps /\ (ret'.op \in GenOps => ~ret'.raised)) => (ret'.buf = nbuf + 1 /\ nbuf' = nbuf + 1)
+  /\ (ret'.op \notin BlockOps \/ (ret'.op \in GenOps /\ ret'.raised)) =>
+        (nbuf' = nbuf /\ \A g \in 1..NG : gens'[g].buf = gens[g].buf)
+EarlierBlocksUnchanged == [][EarlierStep]_vars
+\* no two generators ever share an output array
+BuffersDistinct == \A g, h \in 1..NG : g # h => gens[g].buf # gens[h].buf
+
+\* Frame conditions every replayed call is held to (names listed per emitted edge; the harness refuses
+\* an edge naming a law it does not implement):
+\*   EarlierBlocksUnchanged  every array returned by an earlier call still holds the values it was returned with
+\*   OthersUnchanged         Isolation: the stored block of every other generator is untouched
+\*   ArgumentsUnchanged      array arguments (phi_l, psi_l of generate_jakes_samples) are bit-identical afterwards
+\*   QueriesPure             get_samples / shape / L / Ts / Fd may be read any number of times without effect
+Frame == {"EarlierBlocksUnchanged", "OthersUnchanged", "ArgumentsUnchanged", "QueriesPure"}
+Laws(r) == IF r.op \in BlockOps
+             THEN Frame \cup {"Count", "Contiguity", "OnGrid", "PhasesFixed", "Bound"}
+                        \cup (IF (Lattice /\ FdQ = 0) THEN {"ZeroDoppler"} ELSE {})
+             ELSE Frame \cup {"StoredBlockKept"}
+
 \* exact values (lattice instance): |h|^2 = (re^2 + im^2) * Norm2 <= L for every draw, element, index
 AllVals == {Val(d, e, r) : d \in 1..draws, e \in 0..1, r \in 0..3}
 Bound == Lattice => \A v \in AllVals : (v[1] * v[1] + v[2] * v[2]) * Norm2[1] <= L * Norm2[2]
@@ -290,6 +328,6 @@ UnitPower == (Lattice /\ draws >= 1) => Norm2[1] * L = Norm2[2]
 
 (* ---------------------------------------------- emission ------------------------------------------- *)
 View(gs, d, n) == [gens |-> gs, draws |-> d, len |-> n]
-Emit == EmitEdge([pre |-> View(gens, draws, len), post |-> View(gens', draws', len'), ret |-> ret',
+Emit == EmitEdge([pre |-> View(gens, draws, len), post |-> View(gens', draws', len'), ret |-> ret', req |-> Laws(ret'),
                   norm2 |-> Norm2])
 =============================================================================
